@@ -5,6 +5,8 @@
 #                          each edge is replayed on real Grids (pre-state rebuilt along a path of
 #                          TLC's own graph), with and without a lookup before the operation
 #  (C) Trace_GridSeq.tla   seeded random histories of real Grids, judged by TLC
+import copy as _copy
+import pickle
 import json
 import os
 import multiprocessing
@@ -31,6 +33,7 @@ class Rows(object):
         self.spec = spec          # list of row descriptors, index = row id - 1
         self.objs = {}
         self.ids = {}
+        self.keep = []            # copies of grids made during a history (kept alive: rows are told apart by id())
         for i, d in enumerate(spec, 1):
             o = self.build(d)
             self.objs[i] = o
@@ -111,6 +114,24 @@ def arg(x):
     return None if x == NOARG else x
 
 
+class Idx(object):
+    """an index object that is no number: a list takes anything that offers __index__"""
+
+    def __init__(self, i):
+        self.i = i
+
+    def __index__(self):
+        return self.i
+
+    def __repr__(self):
+        return 'Idx(%d)' % self.i
+
+
+def ix(i):
+    """every other position is handed over as an index object instead of an int"""
+    return Idx(i) if i % 2 else i
+
+
 def arg_form(hs, R, rs):
     """the rows handed to extend / += as a list, a tuple, an iterator or another Grid (chosen by the rows themselves,
     so that a replay makes the same choice); a Grid only when every row is a dict"""
@@ -138,10 +159,10 @@ def apply_op(hs, g, R, o):
             r = g.insert(o['i'], R.objs[o['r']])
             return (['None'] if r is None else ['unexpected_return']), g
         if n == 'setitem':
-            g[o['i']] = R.objs[o['r']]
+            g[ix(o['i'])] = R.objs[o['r']]
             return ['None'], g
         if n == 'delitem':
-            del g[o['i']]
+            del g[ix(o['i'])]
             return ['None'], g
         if n == 'delslice':
             del g[arg(o['a']):arg(o['b'])]
@@ -156,7 +177,7 @@ def apply_op(hs, g, R, o):
             g[arg(o['a']):arg(o['b'])] = R.objs[o['r']]
             return ['None'], g
         if n == 'pop':
-            x = g.pop() if o['i'] == NOARG else g.pop(o['i'])
+            x = g.pop() if o['i'] == NOARG else g.pop(ix(o['i']))
             return ['row', R.rid(x)], g
         if n == 'remove':
             r = g.remove(R.objs[o['r']])
@@ -183,6 +204,10 @@ def apply_op(hs, g, R, o):
         if n == 'filter_limit':
             d = g.filter('', limit=o['n'])
             return derived(hs, g, d)
+        if n == 'copy':
+            d = _copy.copy(g) if o['how'] == 'shallow' else _copy.deepcopy(g) if o['how'] == 'deep' else \
+                pickle.loads(pickle.dumps(g, protocol=2 + (len(g) % 4)))
+            return copied(hs, g, d, R, o['how'])
         raise MachineryError('unknown op %r' % (o,))
     except MachineryError:
         raise
@@ -198,6 +223,26 @@ def derived(hs, parent, d):
     if shape(d) != shape(parent):
         return ['shape_differs'], d
     return ['grid'], d
+
+
+def copied(hs, g, d, R, how):
+    """the copy of a grid: the same rows in the same order (under deepcopy: their copies, which take over the
+    identities of the rows they were copied from), the same shape"""
+    if type(d) is not hs.Grid:
+        return ['not_a_grid'], g
+    if d is g:
+        return ['same_object'], g
+    R.keep.append(d)
+    if how != 'shallow':
+        olds, news = list(g), list(d)
+        if len(olds) == len(news):
+            for a, b in zip(olds, news):
+                if a is b:
+                    return ['row_shared_with_original'], d
+                R.ids[id(b)] = R.rid(a)
+    if shape(d) != shape(g):
+        return ['shape_differs'], d
+    return ['copy'], d
 
 
 def observe(hs, g, R, codes, rng=None, full=False, lookups=True):
@@ -220,7 +265,7 @@ def observe(hs, g, R, codes, rng=None, full=False, lookups=True):
         sorted(set([-n - 1, -n, -1, 0, n - 1, n] + [rng.randint(-n - 1, n) for _ in range(3)]))
     for i in idxs:
         try:
-            obs.append({'k': 'getitem', 'i': i, 'r': ['row', R.rid(g[i])]})
+            obs.append({'k': 'getitem', 'i': i, 'r': ['row', R.rid(g[ix(i)])]})
         except Exception as e:
             obs.append({'k': 'getitem', 'i': i, 'r': [type(e).__name__]})
     bounds = [NOARG] + list(range(-3, 4))
@@ -576,7 +621,7 @@ def random_history(hs, rng, spec, codes, length):
     quiet = 0          # number of coming events after which no lookup by id is observed
     names = ['append'] * 5 + ['insert'] * 4 + ['setitem'] * 4 + ['delitem'] * 3 + ['delslice', 'pop', 'pop', 'remove',
              'reverse', 'extend', 'extend', 'iadd', 'slice', 'slice', 'filter_id', 'filter_limit', 'clear',
-             'setslice', 'setslice', 'setslice_row', 'delstep', 'delstep']
+             'setslice', 'setslice', 'setslice_row', 'delstep', 'delstep', 'copy']
     for _ in range(length):
         n = len(g._row)
         name = rng.choice(names)
@@ -628,6 +673,8 @@ def random_history(hs, rng, spec, codes, length):
             o['a'] = SL(); o['b'] = SL(); o['r'] = RW()
         elif name == 'filter_limit':
             o['n'] = rng.randint(1, 3)
+        elif name == 'copy':
+            o['how'] = rng.choice(['shallow', 'deep', 'deep', 'pickle'])
         if name in ('slice', 'filter_id', 'filter_limit') and rng.random() < 0.5 and n > 6:
             pass
         res, g2 = apply_op(hs, g, R, o)
@@ -639,14 +686,14 @@ def random_history(hs, rng, spec, codes, length):
             o['rows'] = [-9]; o['ver'] = type(e).__name__
         # a lookup by id builds the id index as a side effect: for a while after a grid was derived (and in some
         # stretches at random) no lookup is made, so that mutators also meet grids whose index was never built
-        if res == ['grid'] and rng.random() < 0.6:
+        if res in (['grid'], ['copy']) and rng.random() < 0.6:
             quiet = rng.randint(1, 3)
         elif quiet == 0 and rng.random() < 0.04:
             quiet = rng.randint(1, 4)
         o['obs'] = observe(hs, g2, R, codes, rng=rng, lookups=(quiet == 0))
         quiet = max(0, quiet - 1)
         evs.append(o)
-        if res == ['grid']:
+        if res == ['grid'] or (res == ['copy'] and o['how'] != 'shallow'):
             parked = g
         g = g2
     return {'ver': ver, 'given': given, 'evs': evs}
